@@ -421,7 +421,22 @@ func cmdCheck(args []string) {
 		return claims.names[base] || claims.complete[o.Func]
 	}
 	fmt.Fprintf(os.Stderr, "[timing] load+vcgen %.1fs (%d functions)\n", time.Since(t0).Seconds(), len(results))
-	solveAll(results, budget, 16, inScope)
+	if genClaims {
+		solveAll(results, budget, 16, inScope)
+	} else {
+		// claimed obligations get the tier's budget; unclaimed ones (attempted and reported in the
+		// thorough tier for functions under explicit contract) are informational and get at most 20 s
+		isClaimed := func(o *Obligation) bool {
+			base := strings.TrimSuffix(strings.TrimSuffix(o.Name, "@outside-known-region"), "@known-region")
+			return claims.names[base] || claims.complete[o.Func]
+		}
+		solveAll(results, budget, 16, func(o *Obligation) bool { return inScope(o) && isClaimed(o) })
+		ub := budget
+		if ub > 20 {
+			ub = 20
+		}
+		solveAll(results, ub, 16, func(o *Obligation) bool { return inScope(o) && !isClaimed(o) && o.Result == "" })
+	}
 	fmt.Fprintf(os.Stderr, "[timing] first solve pass done at %.1fs\n", time.Since(t0).Seconds())
 	// retry failed claimed obligations with 4x budget before declaring failure
 	retry := func(o *Obligation) bool {
